@@ -262,6 +262,16 @@ Proof.
     apply (finditer_none _ _ c s Hn Hm).
 Qed.
 
+(* an ampersand is inert when no character reference can be completed: the text has no & or no ; *)
+Definition amp_ok (s : str) : bool := negb (mem 38 s) || negb (mem 59 s).
+
+Lemma unescape_amp_ok l : amp_ok l = true -> unescape l = l.
+Proof.
+  intros H. unfold unescape, unescape_with. destruct (mem 38 l) eqn:E38; [|reflexivity]. cbn [negb].
+  unfold amp_ok in H. rewrite E38 in H. cbn [negb orb] in H. apply negb_true_iff in H.
+  rewrite (finditer_none _ _ 59 l); [reflexivity|vm_compute; reflexivity|exact H].
+Qed.
+
 (* the hypotheses on a text, gathered *)
 Definition inert_core (s : str) : Prop :=
   mem 92 s = false /\ mem 96 s = false /\
@@ -280,14 +290,14 @@ Proof.
 Qed.
 
 Theorem tokenize_inner_inert types s :
-  inert_core s -> mem 38 s = false -> s <> [] -> forallb (lacks s) (removelast types) = true ->
+  inert_core s -> amp_ok s = true -> s <> [] -> forallb (lacks s) (removelast types) = true ->
   tokenize_inner types [] s = [RawText s].
 Proof.
   intros Hc Ha Hne Hq. unfold tokenize_inner. rewrite (find_all_inert s Hc _ Hq).
   cbn [number_from map]. unfold tokenize, SpanTokenizer.make_tokens, make_tokens_with. cbn [sort_cands fold_right buffer_rev last_end mk_rev app].
   destruct (0 =? slen s) eqn:E.
   - apply Z.eqb_eq in E. destruct s; [contradiction|]. unfold slen in E. cbn [length] in E. lia.
-  - cbn [rev app map build_otok]. rewrite substr_all. unfold unescape, unescape_with. rewrite Ha. reflexivity.
+  - cbn [rev app map build_otok]. rewrite substr_all. rewrite (unescape_amp_ok s Ha). reflexivity.
 Qed.
 
 (* ---- the block phase: a line that starts no block other than a paragraph ---- *)
@@ -331,7 +341,7 @@ Section Block.
   Qed.
 End Block.
 
-Definition inert_line (l : str) : Prop := block_line l /\ inert_core l /\ mem 38 l = false.
+Definition inert_line (l : str) : Prop := block_line l /\ inert_core l /\ amp_ok l = true.
 Definition lacks_config (cfg : pconfig) (l : str) : bool :=
   existsb (fun k => kind_eqb k BK_Paragraph) (cfg_block cfg) && forallb (lacks l) (removelast (cfg_span cfg)).
 
@@ -402,12 +412,12 @@ Qed.
 
 Definition inert_line_b (l : str) : bool :=
   plain_first (hd 0 l) && negb (mem 124 l) && (match l with [] => false | _ => true end) && negb (is_space_c (last l 0)) &&
-  negb (mem 92 l) && negb (mem 96 l) && negb (mem 38 l) && no_link_paren l && closers_free l.
+  negb (mem 92 l) && negb (mem 96 l) && amp_ok l && no_link_paren l && closers_free l.
 
 Lemma inert_line_b_spec l : inert_line_b l = true -> inert_line l.
 Proof.
   unfold inert_line_b. intros H. repeat rewrite andb_true_iff in H. destruct H as [[[[[[[[H1 H2] H3] H4] H5] H6] H7] H8] H9].
-  apply negb_true_iff in H2, H4, H5, H6, H7.
+  apply negb_true_iff in H2, H4, H5, H6.
   split; [|split].
   - split; [exact H1|]. split; [exact H2|]. split; [destruct l; discriminate|exact H4].
   - split; [exact H5|]. split; [exact H6|]. split; [apply no_link_paren_spec; exact H8|apply closers_free_spec; exact H9].
@@ -422,20 +432,18 @@ Proof. intros H. apply inert_line_renders. apply inert_line_b_spec. exact H. Qed
 Example inert_instances :
   forallb (fun l => inert_line_b l && forallb (fun c => lacks_config c l) [cfg_html; cfg_html_nohtml; cfg_markdown; cfg_latex; cfg_mathjax; cfg_default])
     [$"so 2 * 3 = 6, and snake_case_name stays"; $"a [b] c and ![d] and e] f [g"; $"x < y, 5 * 2 _ 1"; $"open *only and **twice, never closed";
-     $"f(x)[i] = a_b * c_d"; $"(see [1]) and [^note]"; $"x > y"] = true /\
+     $"f(x)[i] = a_b * c_d"; $"(see [1]) and [^note]"; $"x > y"; $"AT&T, R&D and a && b"] = true /\
   inert_line_b ($"a *b* c") = false /\ inert_line_b ($"a _b_ c") = false /\ inert_line_b ($"[a](b)") = false /\ inert_line_b ($"a \\* b") = false /\
-  inert_line_b ($"a*") = false /\ lacks_config cfg_html ($"a ~ b") = false /\ lacks_config cfg_html ($"a <b> c") = false.
+  inert_line_b ($"a*") = false /\ inert_line_b ($"x &amp; y") = false /\ lacks_config cfg_html ($"a ~ b") = false /\ lacks_config cfg_html ($"a <b> c") = false.
 Proof. vm_compute. repeat split; reflexivity. Qed.
 
 (* ================= paragraphs of several lines ================= *)
 (* what the inline phase needs of each line *)
-Definition wline (l : str) : Prop := mem 10 l = false /\ mem 92 l = false /\ mem 38 l = false /\ l <> [] /\ last l 0 <> 32.
+Definition wline (l : str) : Prop := mem 10 l = false /\ mem 92 l = false /\ amp_ok l = true /\ l <> [] /\ last l 0 <> 32.
 
 Lemma wline_tail l : wline l -> ok_tail l.
 Proof. intros (H1 & H2 & _ & _ & Hl). repeat split; [exact H1|exact H2|intros _; exact Hl]. Qed.
 
-Lemma unescape_no_amp l : mem 38 l = false -> unescape l = l.
-Proof. intros H. unfold unescape, unescape_with. rewrite H. reflexivity. Qed.
 
 Lemma np_increasing_any : forall ls p, chain (lbc 0 (newline_positions p ls)) /\ Forall (fun c => inner c = false) (lbc 0 (newline_positions p ls)).
 Proof.
@@ -489,13 +497,13 @@ Section InnerGen.
         assert (slen s = slen pre + slen l) by (rewrite Es, slen_app; reflexivity).
         assert (0 < slen l) by (destruct l; [contradiction|unfold slen; cbn [length]; lia]).
         replace (slen pre =? slen s) with false by (symmetry; apply Z.eqb_neq; lia). cbn [map build_otok].
-        rewrite H. rewrite Es. rewrite <- (app_nil_r l) at 1. rewrite (substr_mid pre l []). rewrite unescape_no_amp by exact Hpl. reflexivity.
+        rewrite H. rewrite Es. rewrite <- (app_nil_r l) at 1. rewrite (substr_mid pre l []). rewrite unescape_amp_ok by exact Hpl. reflexivity.
       - change (join [10] (l :: l2 :: r')) with (l ++ 10 :: join [10] (l2 :: r')) in Es.
         change (newline_positions (slen pre) (l :: l2 :: r')) with ((slen pre + slen l) :: newline_positions (slen pre + slen l + 1) (l2 :: r')) in *.
         cbn [lbc]. rewrite out_cons. cbn [cs ce].
         assert (0 < slen l) by (destruct l; [contradiction|unfold slen; cbn [length]; lia]).
         unfold gap. replace (slen pre + slen l >? slen pre) with true by (symmetry; apply Z.gtb_lt; lia).
-        cbn [app map build_otok cid]. rewrite Es at 1. rewrite (substr_mid pre l (10 :: join [10] (l2 :: r'))). rewrite unescape_no_amp by exact Hpl.
+        cbn [app map build_otok cid]. rewrite Es at 1. rewrite (substr_mid pre l (10 :: join [10] (l2 :: r'))). rewrite unescape_amp_ok by exact Hpl.
         pose proof (HL 0%nat (slen pre + slen l) eq_refl) as H0. rewrite Nat.add_0_r in H0. rewrite H0. cbn [prose_toks]. f_equal. f_equal.
         assert (Ep : slen (pre ++ l ++ [10]) = slen pre + slen l + 1) by (rewrite !slen_app; unfold slen; cbn [length]; lia).
         rewrite <- Ep. apply (IH (pre ++ l ++ [10]) (Z.of_nat k + 1) (S k)); [discriminate|exact Hr| |lia|].
@@ -641,9 +649,16 @@ Proof.
     destruct Hin as [<-|Hin]; [exact Hx|apply IH; assumption].
 Qed.
 
+Lemma amp_ok_join_line ls x : amp_ok (join [10] ls) = true -> In x ls -> amp_ok x = true.
+Proof.
+  unfold amp_ok. intros H Hin. apply orb_true_iff in H as [H|H]; apply negb_true_iff in H.
+  - rewrite (mem_join_line 38 ls x H Hin). reflexivity.
+  - rewrite (mem_join_line 59 ls x H Hin). apply orb_true_r.
+Qed.
+
 Definition inert_paragraph (l : str) (ls : list str) : Prop :=
   block_line l /\ Forall bl_cont ls /\ Forall (fun x => mem 10 x = false) (l :: ls) /\
-  inert_core (join [10] (l :: ls)) /\ mem 38 (join [10] (l :: ls)) = false.
+  inert_core (join [10] (l :: ls)) /\ amp_ok (join [10] (l :: ls)) = true.
 
 Definition lacks_nl_config (cfg : pconfig) (s : str) : bool :=
   existsb (fun k => kind_eqb k BK_Paragraph) (cfg_block cfg) && forallb (lacks_nl s) (removelast (cfg_span cfg)) &&
@@ -663,7 +678,7 @@ Proof.
   assert (Hbl : Forall block_line (l :: ls)) by (constructor; [exact PL|apply Forall_forall; intros x Hx; rewrite Forall_forall in Hc; apply (Hc x Hx)]).
   apply Forall_forall. intros x Hx. rewrite Forall_forall in Hbl, H10. destruct (Hbl x Hx) as (_ & _ & Hne & Hl).
   destruct Hcore as (H92 & _).
-  split; [apply H10; exact Hx|]. split; [apply (mem_join_line 92 (l :: ls)); assumption|]. split; [apply (mem_join_line 38 (l :: ls)); assumption|].
+  split; [apply H10; exact Hx|]. split; [apply (mem_join_line 92 (l :: ls)); assumption|]. split; [apply (amp_ok_join_line (l :: ls)); assumption|].
   split; [exact Hne|]. intros E. rewrite E in Hl. vm_compute in Hl. discriminate.
 Qed.
 
@@ -695,12 +710,12 @@ Qed.
 Definition inert_paragraph_b (l : str) (ls : list str) : bool :=
   let s := join [10] (l :: ls) in
   block_line_b l && forallb (fun x => block_line_b x && cont_first (hd 0 x)) ls && forallb (fun x => negb (mem 10 x)) (l :: ls) &&
-  negb (mem 92 s) && negb (mem 96 s) && no_link_paren s && closers_free s && negb (mem 38 s).
+  negb (mem 92 s) && negb (mem 96 s) && no_link_paren s && closers_free s && amp_ok s.
 
 Lemma inert_paragraph_b_spec l ls : inert_paragraph_b l ls = true -> inert_paragraph l ls.
 Proof.
   unfold inert_paragraph_b. cbv zeta. intros H. repeat rewrite andb_true_iff in H. destruct H as [[[[[[[H1 H2] H3] H4] H5] H6] H7] H8].
-  apply negb_true_iff in H4, H5, H8.
+  apply negb_true_iff in H4, H5.
   split; [apply block_line_b_spec; exact H1|]. split; [|split; [|split]].
   - apply Forall_forall. intros x Hx. rewrite forallb_forall in H2. specialize (H2 x Hx). apply andb_true_iff in H2 as [A B].
     split; [apply block_line_b_spec; exact A|exact B].
@@ -716,7 +731,7 @@ Proof. intros H. apply inert_paragraph_renders. apply inert_paragraph_b_spec. ex
 
 Example inert_paragraph_instance :
   let l := $"so 2 * 3 = 6 and snake_case stays," in
-  let ls := [$"a [b] c, ![d], e] and [f *"; $"then x < y _ z and **open"; $"f(x)[i] = a_b * c_d"] in
+  let ls := [$"a [b] c, ![d], e] and [f *"; $"then x < y _ z and **open"; $"f(x)[i] = a_b * c_d"; $"AT&T & co"] in
   inert_paragraph_b l ls = true /\
   forallb (fun c => lacks_nl_config c (join [10] (l :: ls))) [cfg_html; cfg_html_nohtml; cfg_markdown; cfg_latex; cfg_mathjax; cfg_default] = true /\
   inert_paragraph_b ($"a *b") [$"c* d"] = false /\ inert_paragraph_b ($"a [b](c)") [$"d"] = false.
